@@ -97,6 +97,89 @@ pub fn run(args: &[String]) -> i32 {
                     tally(&mut out, ri, name, n, counts, 0);
                 }
             }
+            "pair" => {
+                // two genes of one long genome, at distances 1, 64 and 128
+                let rate = u(&row["a"]) as f64 / u(&row["D"]) as f64;
+                let len = 200usize;
+                for (i, j) in [(0usize, 1usize), (0, 64), (5, 133), (3, 67)] {
+                    let mut targets: Vec<(String, Box<dyn FnMut(&mut SmallRng) -> String>)> = Vec::new();
+                    targets.push((format!("with_rate_bits:{i},{j}"), Box::new(move |r| {
+                        let Ok(c) = WithRate::new(rate as f32).mutate(Bitstring { bits: vec![false; len] }, r);
+                        key([c.bits[i], c.bits[j]])
+                    })));
+                    targets.push((format!("with_rate_vec:{i},{j}"), Box::new(move |r| {
+                        let Ok(c) = WithRate::new(rate as f32).mutate(vec![false; len], r);
+                        key([c[i], c[j]])
+                    })));
+                    targets.push((format!("bitstring_random_with_probability:{i},{j}"), Box::new(move |r| {
+                        let c = Bitstring::random_with_probability(len, rate, r);
+                        key([c.bits[i], c.bits[j]])
+                    })));
+                    if u(&row["a"]) * 2 == u(&row["D"]) {
+                        targets.push((format!("uniform_xo_bits:{i},{j}"), Box::new(move |r| {
+                            let c = UniformXo.recombine([Bitstring { bits: vec![false; len] }, Bitstring { bits: vec![true; len] }], r).expect("len");
+                            key([c.bits[i], c.bits[j]])
+                        })));
+                        targets.push((format!("uniform_xo_vec:{i},{j}"), Box::new(move |r| {
+                            let c = UniformXo.recombine((vec![false; len], vec![true; len]), r).expect("len");
+                            key([c[i], c[j]])
+                        })));
+                    }
+                    let m = (n / 4).max(1000);
+                    for (name, mut f) in targets {
+                        let mut counts = BTreeMap::new();
+                        for _ in 0..m {
+                            *counts.entry(f(&mut rng)).or_insert(0) += 1;
+                        }
+                        tally(&mut out, ri, &name, m, counts, 0);
+                    }
+                }
+            }
+            "umad_empty" => {
+                let e = u(&row["a"]) as f64 / u(&row["D"]) as f64;
+                let other = if e > 0.5 { 0.25 } else { 0.75 }; // an addition rate that differs from the empty rate
+                let mut targets: Vec<(&str, Box<dyn FnMut(&mut SmallRng) -> usize>)> = Vec::new();
+                targets.push(("umad_new_with_empty_rate_vector", Box::new(move |r| {
+                    let Ok(c) = Umad::new_with_empty_rate(other, e, 0.5, NewInt).mutate(Vector::<i64> { genes: vec![] }, r);
+                    c.genes.len()
+                })));
+                targets.push(("umad_new_with_empty_rate_plushy", Box::new(move |r| {
+                    let Ok(c) = Umad::new_with_empty_rate(other, e, 0.5, NewGene).mutate(Plushy::new(Vec::<PushGene>::new()), r);
+                    c.get_genes().len()
+                })));
+                targets.push(("umad_new_vector", Box::new(move |r| {
+                    // `new`: the empty-genome rate is the addition rate
+                    let Ok(c) = Umad::new(e, 0.5, NewInt).mutate(Vector::<i64> { genes: vec![] }, r);
+                    c.genes.len()
+                })));
+                for (name, mut f) in targets {
+                    let mut counts = BTreeMap::new();
+                    for _ in 0..n {
+                        *counts.entry(json!([f(&mut rng).min(2)]).to_string()).or_insert(0) += 1;
+                    }
+                    tally(&mut out, ri, name, n, counts, 0);
+                }
+            }
+            "ool_long" => {
+                // total flips over a few long genomes ~ Binomial(runs * len, 1/len)
+                let len = u(&row["n"]) as usize;
+                let runs = (n / 1000).clamp(60, 4000);
+                for target in ["one_over_length_bits_long", "one_over_length_vec_long"] {
+                    let mut flips = 0u64;
+                    for _ in 0..runs {
+                        flips += if target.contains("bits") {
+                            WithOneOverLength.mutate(Bitstring { bits: vec![false; len] }, &mut rng).expect("len").bits.iter().filter(|b| **b).count() as u64
+                        } else {
+                            WithOneOverLength.mutate(vec![false; len], &mut rng).expect("len").iter().filter(|b| **b).count() as u64
+                        };
+                    }
+                    let total = runs * len as u64;
+                    let mut counts = BTreeMap::new();
+                    counts.insert("[1]".to_string(), flips);
+                    counts.insert("[0]".to_string(), total - flips);
+                    tally(&mut out, ri, target, total, counts, 0);
+                }
+            }
             "umad" => {
                 let (add, del) = (u(&row["addA"]) as f64 / u(&row["D"]) as f64, u(&row["delA"]) as f64 / u(&row["D"]) as f64);
                 let plen = 2usize;
